@@ -5,7 +5,10 @@
 """
 import json, os, sys
 ROOT = os.path.dirname(os.path.dirname(os.path.abspath(__file__)))
+import fcntl
 P = os.path.join(ROOT, "known_findings.json")
+_lock = open(P + ".lock", "w")
+fcntl.flock(_lock, fcntl.LOCK_EX)
 d = json.load(open(P))
 kind, pid = sys.argv[1], sys.argv[2]
 if kind == "known":
